@@ -314,6 +314,21 @@ fn shapes(seg: usize, rng: &mut Rng, thorough: bool) -> Vec<Vec<(char, usize)>> 
         // incompressible and as large as fits
         vec![('r', seg / 2)], vec![('r', seg / 3), ('r', seg / 3)],
     ];
+    // mixed transactions that fill an EMPTY segment to within a few bytes of its capacity by their uncompressed estimate:
+    // several incompressible events (each stored larger than estimated) followed / preceded by a compressible one
+    // (stored much smaller), so the transaction fits only because of compression and sits at the very end of the segment
+    for delta in [0usize, 9, 33, 70] {
+        for n_r in [4usize, 6] {
+            let s_r = 15_000usize;
+            let fixed = SEGMENT_HEADER_SIZE + COMMIT_SIZE + (n_r + 1) * hdr + n_r * s_r + delta;
+            if seg > fixed + 200 {
+                let last = seg - fixed;
+                let mut a: Vec<(char, usize)> = (0..n_r).map(|_| ('r', s_r)).collect(); a.push(('c', last));
+                let mut b: Vec<(char, usize)> = vec![('c', last)]; b.extend((0..n_r).map(|_| ('r', s_r)));
+                v.push(a); v.push(b);
+            }
+        }
+    }
     let extra = if thorough { 40 } else { 3 };
     for _ in 0..extra {
         let n = *rng.pick(&[1usize, 1, 2, 3, 4]);
